@@ -64,6 +64,15 @@ fn effect(i: &Ins) -> Option<Effect> {
     }
 }
 
+/// opcode names of the table that the effect specification does not cover (the verifier cannot judge code that uses them)
+pub fn uncovered_opcodes(t: &Table) -> Vec<String> {
+    t.ops
+        .iter()
+        .filter(|o| effect(&Ins { at: 0, op: 0, len: 1, name: o.name.clone(), args: vec![0; o.widths.len()] }).is_none())
+        .map(|o| o.name.clone())
+        .collect()
+}
+
 pub fn verify(code: &Bytecode, t: &Table) -> VerifyReport {
     let mut rep = VerifyReport::default();
     let mut add = |rep: &mut VerifyReport, class: &str, detail: String| {
